@@ -24,10 +24,11 @@ try:
     r = run(f'git -C /repo worktree add -q --detach {wt} HEAD')
     assert r.returncode == 0, r.stderr
     demo = os.path.join(src, 'demo_test.py')
-    shutil.copy(demo, os.path.join(wt, '_demo_test.py'))
+    os.makedirs(os.path.join(wt, '_seed'), exist_ok=True)
+    shutil.copy(demo, os.path.join(wt, '_seed', 'demo_test.py'))   # same layout as in the agent's worktree (demos locate the package relative to themselves)
     def run_demo():
         t0 = time.time()
-        r = run(f"cd {wt} && unshare -n bash -c 'ip link set lo up && timeout 600 /venv/bin/python -m pytest -q -p no:cacheprovider -x _demo_test.py' 2>&1 | tail -5")
+        r = run(f"cd {wt} && unshare -n bash -c 'ip link set lo up && timeout 600 /venv/bin/python -m pytest -q -p no:cacheprovider -x _seed/demo_test.py' 2>&1 | tail -5")
         return ('passed' in r.stdout and 'failed' not in r.stdout and 'error' not in r.stdout.lower()), r.stdout.strip().splitlines()[-1:] , round(time.time() - t0, 1)
     ok0, out0, t0 = run_demo()
     log['demo_on_unchanged_tree'] = {'passes': ok0, 'tail': out0, 's': t0}
